@@ -1,4 +1,5 @@
 """C14 Equivalent ways of stating the same customisation give identical output (DESIGN.md 6/C14)."""
+import json
 import ast
 import os
 from checklib import REPO
@@ -134,6 +135,12 @@ def run(ctx):
         "util.Scope's own lookup semantics (parent fallback) and the per-argument attrs merge; the wiring check is per "
         "assignment statement (fresh child scope of the container's scope)",
     ]
+    # relations of this property on the upstream regression inputs (bounded, never proof)
+    rc = ctx.monitor("m_corpus_rel", "psearch", 400, ctx.seed, 16, json.dumps({"rel": ['option']}))
+    ctx.bounded.append({"monitor": "m_corpus_rel", "inputs_tried": rc["tried"], "violation": rc["violation"],
+                        "kind": 'every upstream regression input: --option X=v equals options: {X: v} written into the file (F_force_wrapper, C_line_length)'})
+    if rc["violation"]:
+        ctx.violation("bounded/m_corpus_rel", {"inputs": rc["inputs"], "observed": rc["violation"]}, True)
     if ctx.tier != "thorough":
         r0 = ctx.monitor("m_options", "search", 40, ctx.seed)
         ctx.bounded.append({"monitor": "m_options", "inputs_tried": r0["tried"], "violation": r0["violation"],
